@@ -30,7 +30,7 @@ type c05ctx struct {
 var nonNegPreserving = []string{
 	"types.NewDec", "types.NewDecFromInt", "types.NewInt", "types.Int).ToDec", "types.Dec).TruncateInt", "types.Dec).TruncateInt64",
 	"types.Int).Int64", "types.Dec).MulInt64", "types.Dec).Mul", "types.Dec).MulInt", "types.Dec).Quo", "types.Dec).QuoInt64",
-	"types.Dec).Add", "types.Int).Add", "types.Int).Mul", "types.Dec).RoundInt64", "types.Dec).QuoInt", "types.Int).Quo", "types.Int).MulRaw",
+	"types.Dec).Add", "types.Int).Add", "types.Int).Mul", "types.Dec).RoundInt64", "types.Dec).QuoInt", "types.Int).Quo", "types.Int).MulRaw", "types.Int).QuoRaw", "types.Int).AddRaw", "types.NewIntFromUint64", "types.Dec).MulTruncate", "types.Dec).QuoTruncate", "types.OneDec", "types.ZeroDec", "types.OneInt", "types.ZeroInt",
 }
 
 func hasSuffixAny(s string, xs []string) bool {
